@@ -10,6 +10,7 @@ WORLDS = {
     "gmx1": lambda: catalog.gmx1_world(),
     "gmx2(mild,small)": lambda: catalog.gmx2_world(kind="mild", impact="small"),
     "gmx2(strong,large)": lambda: catalog.gmx2_world(kind="strong", impact="large"),
+    "gmx2(mild,small,single-token)": lambda: catalog.gmx2_world(kind="mild", impact="small", single_token=True),
     "squeeth(eq)": lambda: catalog.squeeth_world("eq"),
     "squeeth(ne)": lambda: catalog.squeeth_world("ne"),
     "squeeth(eq,no-osqth-entry)": lambda: catalog.squeeth_world("eq", with_osqth=False),
